@@ -169,7 +169,7 @@ func (p *pep440Extension) init(input string) error {
 	bang := strings.IndexByte(input, '!')
 	if bang > 0 {
 		p.makeExt()
-		e, err := strconv.ParseUint(input[:bang], 10, 8)
+		e, err := strconv.ParseUint(input[:bang], 10, strconv.IntSize-1)
 		if err != nil {
 			return err
 		}
